@@ -1,15 +1,15 @@
 """C02 bounded stand-in: expression trees of canvas operations, real urwid canvases against the plain
 grid of cells in spec/grid.py.
 
-Every case is one expression tree (JSON-able nested lists, see `build`). The real tree and the model
-tree are evaluated in lock step; after EVERY node the real canvas is observed through content(),
-cols(), rows(), coords and compared with the grid, and the operands of the node are re-observed and
-compared with the snapshot taken when they were created. At the root all leaves and all intermediate
-canvases are re-observed once more.
+Every case is one expression tree (JSON-able nested lists). The real tree and the model tree are
+evaluated in lock step; after EVERY node the real canvas is observed through content(), cols(),
+rows(), coords / get_cursor / get_pop_up / translate_coords and compared with the grid, and the
+operands of the node are re-observed and compared with the snapshot taken when they were created. At
+the root all leaves and all intermediate canvases are re-observed once more.
 
 Expression forms
-  ["leaf", id]                          a leaf canvas from LEAVES (one object per id per case: shared,
-                                        like a cached canvas)
+  ["leaf", id]                          a leaf canvas (one object per id per case: shared between the
+                                        places it occurs, like a cached canvas)
   ["wrap", e]                           CompositeCanvas(e)
   ["trim", e, top, count|None]          CompositeCanvas(e).trim(top, count)
   ["trim_end", e, n]
@@ -18,11 +18,17 @@ Expression forms
   ["attr", e, [[k, v], ...]]            fill_attr_apply(dict)
   ["combine", [e, ...], focus_index]    CanvasCombine
   ["join", [[e, cols], ...], focus_idx] CanvasJoin
-  ["overlay", e_top, e_bottom, left, top]  CanvasOverlay(CompositeCanvas(top), bottom, left, top)
+  ["overlay", e_top, e_bottom, left, top]  CanvasOverlay (a leaf used as the top canvas is wrapped in a
+                                        CompositeCanvas first: CanvasOverlay needs a composite there)
+
+Two encodings ("modes"): "utf8" (wide = East Asian wide, zero-width = combining marks) and "euc"
+(urwid's double-byte "wide" mode through euc-jp: two bytes = two columns; no zero-width characters;
+line drawing goes through the DEC special charset, which gives SolidCanvas a cs="0" leaf).
 """
 from __future__ import annotations
 
 import contextlib
+import hashlib
 import json
 import time
 
@@ -36,6 +42,7 @@ from urwid import str_util, util
 ID = "C02"
 W1, W2, ACC = "中", "文", "́"
 POPW = "POPW"  # stands for the pop-up widget (opaque data carried with the coordinates)
+CODEC = {"utf8": "utf-8", "euc": "euc-jp"}
 
 
 # ------------------------------------------------------------------------------------------ leaves
@@ -43,7 +50,7 @@ def _t(rows, maxcol=None, cursor=None, popup=None):
     return {"kind": "text", "rows": rows, "maxcol": maxcol, "cursor": cursor, "popup": popup}
 
 
-LEAVES = {
+_COMMON = {
     # 1x1 with a cursor
     "a1": _t([[["a", "A", None]]], cursor=[0, 0]),
     # 2x1, two attribute runs
@@ -52,34 +59,53 @@ LEAVES = {
     "w": _t([[[W1, "A", None]]], popup=[1, 0, [POPW, 3, 2]]),
     # 3x2 wide characters at both alignments, 2-run attribute lists, cursor on the second row
     "wa": _t([[[W1, "A", None], ["a", None, None]], [["b", "B", None], [W2, "A", None]]], cursor=[1, 1]),
-    # 4x2: accented (zero-width) characters and two wide characters with different attributes
-    "zw": _t([[["a" + ACC, "A", None], ["b", "A", None], ["c" + ACC + ACC, "B", None], ["d", "B", None]], [[W1 + ACC, "A", None], [W2, "B", None]]]),
-    # 3x1 starting with an orphan zero-width character, then a wide character
-    "orph": _t([[[ACC, "B", None], [W1, "A", None], ["z", None, None]]]),
     # 3x1 DEC special character set runs, with a pop-up and a cursor
     "dec": _t([[["q", None, "0"], ["x", "A", "0"], ["y", "A", None]]], cursor=[2, 0], popup=[0, 0, [POPW, 2, 1]]),
     # 3x2 ragged: the second row is padded by TextCanvas itself
     "rag": _t([[["a", "A", None], ["b", "A", None], ["c", "B", None]], [[W1, "B", None]]]),
-    # 4x3 mixed
-    "big": _t(
-        [
-            [[W1, "A", None], [W2, "B", None]],
-            [["a", "A", None], [W1, "A", None], ["b" + ACC, "B", None]],
-            [["x", None, None], ["y", "A", None], [W2, "B", None]],
-        ],
-        cursor=[3, 2],
-    ),
     # 4x1: explicit maxcol wider than the text
     "mx": _t([[[W1, "B", None]]], maxcol=4),
-    "sx": {"kind": "solid", "char": "x", "cols": 2, "rows": 2},
-    "sl": {"kind": "solid", "char": "─", "cols": 3, "rows": 1},
-    "s1": {"kind": "solid", "char": " ", "cols": 1, "rows": 3},
+    "sx": {"kind": "solid", "char": "x", "cols": 2, "rows": 2, "model": ["x", None]},
+    "s1": {"kind": "solid", "char": " ", "cols": 1, "rows": 3, "model": [" ", None]},
     "b21": {"kind": "blank", "cols": 2, "rows": 1},
     "b32": {"kind": "blank", "cols": 3, "rows": 2},
 }
-QUICK_LEAVES = ["a1", "ab", "w", "wa", "zw", "orph", "dec", "rag", "big", "sx", "b21"]
-ALL_LEAVES = list(LEAVES)
-NO_ORPHAN = [k for k in ALL_LEAVES if k != "orph"]
+LEAVES = {
+    "utf8": {
+        **_COMMON,
+        # 4x2: accented (zero-width) characters and two wide characters with different attributes
+        "zw": _t([[["a" + ACC, "A", None], ["b", "A", None], ["c" + ACC + ACC, "B", None], ["d", "B", None]], [[W1 + ACC, "A", None], [W2, "B", None]]]),
+        # 3x1 starting with an orphan zero-width character, then a wide character
+        "orph": _t([[[ACC, "B", None], [W1, "A", None], ["z", None, None]]]),
+        # 4x3 mixed
+        "big": _t(
+            [
+                [[W1, "A", None], [W2, "B", None]],
+                [["a", "A", None], [W1, "A", None], ["b" + ACC, "B", None]],
+                [["x", None, None], ["y", "A", None], [W2, "B", None]],
+            ],
+            cursor=[3, 2],
+        ),
+        "sl": {"kind": "solid", "char": "─", "cols": 3, "rows": 1, "model": ["─", None]},
+    },
+    "euc": {
+        **_COMMON,
+        # 4x2: wide characters back to back (double-byte runs of even and odd length before the cut)
+        "zw": _t([[["a", "A", None], [W1, "A", None], ["d", "B", None]], [[W1, "A", None], [W2, "B", None]]]),
+        "big": _t(
+            [
+                [[W1, "A", None], [W2, "B", None]],
+                [["a", "A", None], [W1, "A", None], ["b", "B", None]],
+                [["x", None, None], ["y", "A", None], [W2, "B", None]],
+            ],
+            cursor=[3, 2],
+        ),
+        # the line-drawing character is sent through the DEC special character set in this mode
+        "sl": {"kind": "solid", "char": "─", "cols": 3, "rows": 1, "model": ["q", "0"]},
+    },
+}
+QUICK_LEAVES = {"utf8": ["a1", "ab", "w", "wa", "zw", "orph", "dec", "rag", "big", "sx", "b21"], "euc": ["a1", "w", "wa", "zw", "dec", "rag", "sl", "b21"]}
+CORE = {"quick": {"utf8": ["wa", "zw", "orph", "dec"], "euc": ["wa", "zw", "sl"]}, "thorough": {"utf8": ["wa", "zw", "orph", "dec", "big", "rag", "w", "sx"], "euc": ["wa", "zw", "sl", "big", "rag", "dec"]}}
 MAPPINGS = [
     [[None, "X"]],
     [["A", "B"]],
@@ -90,11 +116,13 @@ MAPPINGS = [
 
 
 @contextlib.contextmanager
-def utf8_mode():
+def enc_mode(mode):
     saved = (util._target_encoding, util._use_dec_special, str_util.get_byte_encoding())
     try:
-        urwid.set_encoding("utf-8")
+        urwid.set_encoding(CODEC[mode])
         UC.CanvasCache.clear()
+        if str_util.get_byte_encoding() != {"utf8": "utf8", "euc": "wide"}[mode]:
+            raise AssertionError("encoding mode not established")
         yield
     finally:
         util._target_encoding, util._use_dec_special = saved[0], saved[1]
@@ -107,15 +135,19 @@ def _check_alphabet():
     for ch in "abcdqxyz " + W1 + W2 + ACC + "─":
         if G.char_width(ch) != str_util.get_char_width(ch):
             raise AssertionError(f"width table disagreement on {ch!r}")
+    for ch in W1 + W2:
+        if len(ch.encode("euc-jp")) != 2:
+            raise AssertionError("euc-jp alphabet is not double-byte")
 
 
-def real_leaf(spec):
+def real_leaf(spec, mode):
+    codec = CODEC[mode]
     if spec["kind"] == "text":
         text, attr, cs = [], [], []
         for row in spec["rows"]:
-            text.append(b"".join(s.encode("utf-8") for s, _a, _c in row))
-            attr.append([(a, len(s.encode("utf-8"))) for s, a, _c in row])
-            cs.append([(c, len(s.encode("utf-8"))) for s, _a, c in row])
+            text.append(b"".join(s.encode(codec) for s, _a, _c in row))
+            attr.append([(a, len(s.encode(codec))) for s, a, _c in row])
+            cs.append([(c, len(s.encode(codec))) for s, _a, c in row])
         cur = tuple(spec["cursor"]) if spec["cursor"] else None
         c = UC.TextCanvas(text, attr, cs, cursor=cur, maxcol=spec["maxcol"])
         if spec["popup"]:
@@ -140,7 +172,7 @@ def model_leaf(spec):
             pop = (left, top, tuple(data))
         return G.text_grid([[tuple(c) for c in row] for row in spec["rows"]], spec["maxcol"], spec["cursor"], pop)
     if spec["kind"] == "solid":
-        return G.solid_grid(spec["char"].encode("utf-8"), None, spec["cols"], spec["rows"])
+        return G.solid_grid(spec["model"][0], spec["model"][1], spec["cols"], spec["rows"])
     return G.blank_grid(spec["cols"], spec["rows"])
 
 
@@ -149,9 +181,10 @@ class Malformed(Exception):
     pass
 
 
-def observe_rows(content_iter):
+def observe_rows(content_iter, mode):
     """content() -> list of rows of (char, attr, cs). Raises Malformed if a run is not (attr, cs,
     bytes) or its bytes are not whole characters (half a character emitted)."""
+    codec = CODEC[mode]
     rows = []
     for y, row in enumerate(content_iter):
         chars = []
@@ -160,7 +193,7 @@ def observe_rows(content_iter):
                 raise Malformed(f"row {y}: run {item!r} is not (attr, cs, bytes)")
             a, cs, text = item
             try:
-                s = text.decode("utf-8")
+                s = text.decode(codec)
             except UnicodeDecodeError:
                 raise Malformed(f"row {y}: run {item!r} holds part of a character") from None
             chars.extend((ch, a, cs) for ch in s)
@@ -168,8 +201,8 @@ def observe_rows(content_iter):
     return rows
 
 
-def snapshot(c):
-    return (c.cols(), c.rows(), observe_rows(c.content()) if c.rows() else [], dict(c.coords))
+def snapshot(c, mode):
+    return (c.cols(), c.rows(), observe_rows(c.content(), mode) if c.rows() else [], dict(c.coords))
 
 
 def show_rows(rows):
@@ -237,18 +270,16 @@ class Fail(Exception):
 
 
 class Ctx:
-    def __init__(self, leaves=None):
-        self.specs = leaves or LEAVES
+    def __init__(self, mode, specs=None):
+        self.mode = mode
+        self.specs = specs or LEAVES[mode]
         self.leaf = {}
         self.nodes = []  # (expr, real canvas, snapshot)
-        self.used = set()
 
     def get_leaf(self, lid):
         if lid not in self.leaf:
             spec = self.specs[lid]
-            real, model = real_leaf(spec), model_leaf(spec)
-            self.leaf[lid] = (real, model)
-            self.used.add(lid)
+            self.leaf[lid] = (real_leaf(spec, self.mode), model_leaf(spec))
         return self.leaf[lid]
 
 
@@ -275,7 +306,8 @@ def _real_op(expr, kids):
     if op == "join":
         return UC.CanvasJoin([(c, None, i == expr[2], item[1]) for i, (c, item) in enumerate(zip(kids, expr[1]))])
     if op == "overlay":
-        return UC.CanvasOverlay(UC.CompositeCanvas(kids[0]), kids[1], expr[3], expr[4])
+        top_c = kids[0] if hasattr(kids[0], "shards") else UC.CompositeCanvas(kids[0])
+        return UC.CanvasOverlay(top_c, kids[1], expr[3], expr[4])
     raise ValueError(op)
 
 
@@ -317,13 +349,13 @@ def kids_of(expr):
     return [expr[1]]
 
 
-def model_eval(expr, specs=None, _memo=None):
+def model_eval(expr, specs):
     if expr[0] == "leaf":
-        return model_leaf((specs or LEAVES)[expr[1]])
+        return model_leaf(specs[expr[1]])
     return _model_op(expr, [model_eval(k, specs) for k in kids_of(expr)])[0]
 
 
-def compare(real, model, adm, at, ctx, flags):
+def compare(real, model, adm, at, mode):
     """Observe a real canvas against a grid. Raises Fail on the first disagreement."""
     try:
         rcols, rrows = real.cols(), real.rows()
@@ -332,7 +364,7 @@ def compare(real, model, adm, at, ctx, flags):
     if (rcols, rrows) != (model.cols, model.nrows):
         raise Fail("size", f"reports {rcols}x{rrows} (cols x rows), the grid is {model.cols}x{model.nrows}", at)
     try:
-        rows = observe_rows(real.content()) if rrows else []
+        rows = observe_rows(real.content(), mode) if rrows else []
     except Malformed as e:
         raise Fail("content", str(e), at, {"half_character": True}) from None
     except Exception as e:  # noqa: BLE001
@@ -366,62 +398,61 @@ def compare(real, model, adm, at, ctx, flags):
     return (rcols, rrows, rows, rc)
 
 
-def check_unchanged(ctx, exprs_snaps, at, when):
-    for e, c, snap in exprs_snaps:
+def check_unchanged(ctx, recs, at, when):
+    for e, c, snap in recs:
         try:
-            now = snapshot(c)
+            now = snapshot(c, ctx.mode)
         except Exception as ex:  # noqa: BLE001
-            raise Fail("unchanged", f"operand {json.dumps(e, ensure_ascii=False)} cannot be observed {when}: {ex!r}", at) from None
+            raise Fail("unchanged", f"operand {key_of(e)} cannot be observed {when}: {ex!r}", at) from None
         if now != snap:
             what = "size" if now[:2] != snap[:2] else ("coords" if now[3] != snap[3] else "content")
-            raise Fail("unchanged", f"operand {json.dumps(e, ensure_ascii=False)} changed ({what}) {when}", at, {"before": show_rows(snap[2]), "after": show_rows(now[2]), "coords_before": repr(snap[3]), "coords_after": repr(now[3])})
+            raise Fail("unchanged", f"operand {key_of(e)} changed ({what}) {when}", at, {"before": show_rows(snap[2]), "after": show_rows(now[2]), "coords_before": repr(snap[3]), "coords_after": repr(now[3])})
 
 
-def ev(expr, ctx, flags):
+def ev(expr, ctx):
     """-> (real, model, node record)."""
     if expr[0] == "leaf":
         real, model = ctx.get_leaf(expr[1])
         for rec in ctx.nodes:
             if rec[1] is real:
                 return real, model, rec
-        snap = compare(real, model, None, expr, ctx, flags)
+        snap = compare(real, model, None, expr, ctx.mode)
         rec = (expr, real, snap)
         ctx.nodes.append(rec)
         return real, model, rec
-    kids = [ev(k, ctx, flags) for k in kids_of(expr)]
+    kids = [ev(k, ctx) for k in kids_of(expr)]
     try:
         real = _real_op(expr, [k[0] for k in kids])
     except Exception as e:  # noqa: BLE001
         raise Fail("content", f"raised {e!r}", expr) from None
     model, adm = _model_op(expr, [k[1] for k in kids])
-    snap = compare(real, model, adm, expr, ctx, flags)
+    snap = compare(real, model, adm, expr, ctx.mode)
     check_unchanged(ctx, [k[2] for k in kids], expr, "after the operation")
     rec = (expr, real, snap)
     ctx.nodes.append(rec)
     return real, model, rec
 
 
-TREE_CHECKS = ("content", "size", "coords", "unchanged", "shards")
-
-
-def run_tree(expr, specs=None):
-    """Evaluate one tree. -> dict(ok per check, fail info, flags)."""
-    ctx = Ctx(specs)
-    flags = {}
+def run_tree(expr, mode, specs=None):
+    """Evaluate one tree. -> dict(fail info or None, cuts, has_coords, size)."""
+    ctx = Ctx(mode, specs)
     out = {"fail": None, "cuts": 0, "has_coords": False, "size": None}
     try:
-        real, model, _rec = ev(expr, ctx, flags)
+        _real, model, _rec = ev(expr, ctx)
         check_unchanged(ctx, ctx.nodes, expr, "at the end of the whole expression")
         out["cuts"] = model.cuts
         out["has_coords"] = bool(model.coords)
         out["size"] = (model.cols, model.nrows)
     except Fail as f:
         out["fail"] = {"check": f.check, "why": f.why, "at": f.at, **f.extra}
-    out["leaves"] = sorted(ctx.used)
     return out
 
 
 # ------------------------------------------------------------------------------------ enumeration
+def key_of(e):
+    return json.dumps(e, ensure_ascii=False, separators=(",", ":"))
+
+
 def unary_ops(cols, rows, pad=2, with_attr=True, with_wrap=True):
     if with_wrap:
         yield ["wrap"]
@@ -449,68 +480,71 @@ def mk_unary(op, e):
     return [op[0], e, *op[1:]]
 
 
-def size_of(e, memo):
-    k = json.dumps(e, ensure_ascii=False)
-    if k not in memo:
-        g = model_eval(e)
-        memo[k] = (g.cols, g.nrows)
-    return memo[k]
+class Sizes:
+    """Width/height of an expression according to the grid model (memoised)."""
+
+    def __init__(self, mode):
+        self.specs = LEAVES[mode]
+        self.memo = {}
+
+    def __call__(self, e):
+        k = key_of(e)
+        if k not in self.memo:
+            g = model_eval(e, self.specs)
+            self.memo[k] = (g.cols, g.nrows)
+        return self.memo[k]
 
 
-def binary_ops(a, b, memo, join_deltas=(-1, 0, 1)):
+def binary_ops(a, b, size, join_deltas=(-1, 0, 1)):
     """All defined binary combinations of (a, b) in this order."""
-    (ac, ar), (bc, br) = size_of(a, memo), size_of(b, memo)
+    (ac, ar), (bc, br) = size(a), size(b)
     if ac == bc:
         yield ["combine", [a, b], 0]
     for da in join_deltas:
         for db in join_deltas:
             if ac + da >= 1 and bc + db >= 1:
                 yield ["join", [[a, ac + da], [b, bc + db]], 1]
-    # a on top of b
-    for left in range(bc - ac + 1):
+    for left in range(bc - ac + 1):  # a on top of b
         for top in range(br - ar + 1):
             yield ["overlay", a, b, left, top]
 
 
-def depth1(leaf_ids, memo):
+def depth1(leaf_ids, size):
     out = []
     for lid in leaf_ids:
         e = ["leaf", lid]
-        c, r = size_of(e, memo)
+        c, r = size(e)
         out.extend(mk_unary(op, e) for op in unary_ops(c, r))
     for a in leaf_ids:
         for b in leaf_ids:
-            out.extend(binary_ops(["leaf", a], ["leaf", b], memo))
-    # three operands
-    for a in leaf_ids:
+            out.extend(binary_ops(["leaf", a], ["leaf", b], size))
+    for a in leaf_ids:  # three operands
         for b in leaf_ids:
             ea, eb = ["leaf", a], ["leaf", b]
-            if size_of(ea, memo)[0] == size_of(eb, memo)[0]:
+            if size(ea)[0] == size(eb)[0]:
                 out.append(["combine", [ea, eb, ea], 2])
-            out.append(["join", [[ea, size_of(ea, memo)[0]], [eb, size_of(eb, memo)[0] + 1], [ea, max(1, size_of(ea, memo)[0] - 1)]], 0])
+            out.append(["join", [[ea, size(ea)[0]], [eb, size(eb)[0] + 1], [ea, max(1, size(ea)[0] - 1)]], 0])
     return out
 
 
-def rand_tree(r, depth, leaf_ids, memo, p_leaf=0.12):
+def rand_tree(r, depth, leaf_ids, size, p_leaf=0.12):
     if depth == 0 or r.random() < p_leaf:
         return ["leaf", r.choice(leaf_ids)]
     kind = r.choice(["unary", "unary", "unary", "combine", "join", "overlay", "overlay"])
     if kind == "unary":
-        e = rand_tree(r, depth - 1, leaf_ids, memo)
-        c, rws = size_of(e, memo)
+        e = rand_tree(r, depth - 1, leaf_ids, size)
+        c, rws = size(e)
         fam = r.choice(["trim", "trim", "trim_end", "plr", "plr", "plr", "ptb", "ptb", "attr", "wrap"])
-        ops = [op for op in unary_ops(c, rws) if op[0] == fam]
-        if not ops:
-            ops = [["wrap"]]
+        ops = [op for op in unary_ops(c, rws) if op[0] == fam] or [["wrap"]]
         return mk_unary(r.choice(ops), e)
     if kind == "combine":
-        first = rand_tree(r, depth - 1, leaf_ids, memo)
-        c = size_of(first, memo)[0]
+        first = rand_tree(r, depth - 1, leaf_ids, size)
+        c = size(first)[0]
         kids = [first]
         for _ in range(r.choice([1, 1, 2])):
             for _try in range(10):
-                e = rand_tree(r, depth - 1, leaf_ids, memo)
-                if size_of(e, memo)[0] == c:
+                e = rand_tree(r, depth - 1, leaf_ids, size)
+                if size(e)[0] == c:
                     break
             else:
                 e = first
@@ -520,25 +554,33 @@ def rand_tree(r, depth, leaf_ids, memo, p_leaf=0.12):
     if kind == "join":
         items = []
         for _ in range(r.choice([2, 2, 3])):
-            e = rand_tree(r, depth - 1, leaf_ids, memo)
-            c = size_of(e, memo)[0]
-            items.append([e, max(1, c + r.choice([-2, -1, 0, 0, 1, 2]))])
+            e = rand_tree(r, depth - 1, leaf_ids, size)
+            items.append([e, max(1, size(e)[0] + r.choice([-2, -1, 0, 0, 1, 2]))])
         return ["join", items, r.randrange(len(items))]
-    bottom = rand_tree(r, depth - 1, leaf_ids, memo)
-    bc, br = size_of(bottom, memo)
+    bottom = rand_tree(r, depth - 1, leaf_ids, size)
+    bc, br = size(bottom)
     for _try in range(10):
-        top = rand_tree(r, depth - 1, leaf_ids, memo)
-        tc, tr = size_of(top, memo)
+        top = rand_tree(r, depth - 1, leaf_ids, size)
+        tc, tr = size(top)
         if tc <= bc and tr <= br:
             break
     else:
-        top = ["leaf", "a1"]
-        tc, tr = 1, 1
+        top, tc, tr = ["leaf", "a1"], 1, 1
     return ["overlay", top, bottom, r.randint(0, bc - tc), r.randint(0, br - tr)]
 
 
 def depth_of(e):
     return 0 if e[0] == "leaf" else 1 + max(depth_of(k) for k in kids_of(e))
+
+
+def leaves_in(e):
+    if e[0] == "leaf":
+        return [e[1]]
+    return [x for k in kids_of(e) for x in leaves_in(k)]
+
+
+def spec_subset(mode, ids):
+    return {k: LEAVES[mode][k] for k in sorted(set(ids))}
 
 
 # ----------------------------------------------------------------------------------------- delta
@@ -556,21 +598,21 @@ def cols_layout(chars):
     return out
 
 
-def apply_delta(old_rows, delta_rows, cols):
+def apply_delta(old_rows, delta_rows, cols, mode):
     """Apply a content_delta result to the previously drawn rows. -> (rows, skipped_cols, drawn_cols).
     A delta row is a list whose items are (attr, cs, bytes) runs, drawn at the current column, or an
-    int n: the next n columns are as previously drawn. (A bare int row, which TextCanvas/SolidCanvas
+    int n: the next n columns stay as previously drawn. (A bare int row, which TextCanvas/SolidCanvas
     .content_delta(self) produce, is read as [n]: the statement does not fix the row container.)"""
     out = []
     skipped = drawn = 0
     for y, drow in enumerate(delta_rows):
         if isinstance(drow, int):
             drow = [drow]
-        if y >= len(old_rows) and any(isinstance(i, int) for i in drow):
-            raise Malformed(f"delta row {y} refers to a previously drawn row that does not exist")
+        if y >= len(old_rows):
+            raise Malformed(f"delta has more than {len(old_rows)} rows")
         x = 0
         chars = []
-        lay = cols_layout(old_rows[y]) if y < len(old_rows) else []
+        lay = cols_layout(old_rows[y])
         for item in drow:
             if isinstance(item, int):
                 if item <= 0:
@@ -583,7 +625,7 @@ def apply_delta(old_rows, delta_rows, cols):
                 x += item
                 skipped += item
             else:
-                run = observe_rows([[item]])[0]
+                run = observe_rows([[item]], mode)[0]
                 chars.extend(run)
                 wdt = G.row_width(run)
                 x += wdt
@@ -591,92 +633,89 @@ def apply_delta(old_rows, delta_rows, cols):
         if x != cols:
             raise Malformed(f"delta row {y} covers {x} columns of {cols}")
         out.append(chars)
+    if len(out) != len(old_rows):
+        raise Malformed(f"delta has {len(out)} rows, canvas has {len(old_rows)}")
     return out, skipped, drawn
 
 
-def run_delta(old_expr, new_expr, specs=None, same_object=False):
+def run_delta(old_expr, new_expr, mode, same_object=False, specs=None):
     """-> dict(fail, skipped, drawn). old and new are built over the same leaf objects."""
-    ctx = Ctx(specs)
+    ctx = Ctx(mode, specs)
     out = {"fail": None, "skipped": 0, "drawn": 0}
     try:
-        old_real, old_model, _ = ev(old_expr, ctx, {})
+        old_real, old_model, _ = ev(old_expr, ctx)
         if same_object:
             new_real, new_model = old_real, old_model
         else:
-            new_real, new_model, _ = ev(new_expr, ctx, {})
+            new_real, new_model, _ = ev(new_expr, ctx)
     except Fail as f:
-        out["fail"] = {"check": "setup:" + f.check, "why": "building the pair failed: " + f.why, "at": f.at}
+        out["fail"] = {"why": "building the pair failed: " + f.why, "at": f.at}
         return out
     if (old_model.cols, old_model.nrows) != (new_model.cols, new_model.nrows):
         raise ValueError("delta pair of different sizes")
     old_rows = G.grid_chars(old_model)
     try:
         delta = list(new_real.content_delta(old_real))
-        got, out["skipped"], out["drawn"] = apply_delta(old_rows, delta, new_model.cols)
+        got, out["skipped"], out["drawn"] = apply_delta(old_rows, delta, new_model.cols, mode)
     except Malformed as e:
-        out["fail"] = {"check": "delta", "why": str(e)}
+        out["fail"] = {"why": str(e)}
         return out
     except Exception as e:  # noqa: BLE001
-        out["fail"] = {"check": "delta", "why": f"content_delta raised {e!r}"}
+        out["fail"] = {"why": f"content_delta raised {e!r}"}
         return out
     exp = G.grid_chars(new_model)
     d = first_diff(exp, got)
     if d:
-        out["fail"] = {"check": "delta", "why": "old rows + delta differ from the new content: " + d, "expected": show_rows(exp), "actual": show_rows(got), "delta": repr(delta)}
+        out["fail"] = {"why": "old rows + delta differ from the new content: " + d, "expected": show_rows(exp), "actual": show_rows(got), "delta": repr(delta)}
         return out
     try:
         check_unchanged(ctx, ctx.nodes, new_expr, "after content_delta")
     except Fail as f:
-        out["fail"] = {"check": "delta", "why": f.why}
+        out["fail"] = {"why": f.why}
     return out
 
 
-def leaves_in(e):
-    if e[0] == "leaf":
-        return [e[1]]
-    return [x for k in kids_of(e) for x in leaves_in(k)]
-
-
 def replace_leaf(e, old, new):
-    return json.loads(json.dumps(e, ensure_ascii=False).replace(json.dumps(["leaf", old]), json.dumps(["leaf", new])))
+    return json.loads(key_of(e).replace(key_of(["leaf", old]), key_of(["leaf", new])))
 
 
-def delta_pairs(trees, memo, r, n_random):
-    """(old, new, same_object) pairs of equal size sharing leaf objects."""
-    by_size = {}
+def delta_pairs(trees, size, leaf_ids, r, n_random):
+    """-> (same_layout_pairs, any_layout_pairs); a pair is (old, new, same_object)."""
+    by_size, leaf_by_size = {}, {}
     for e in trees:
-        by_size.setdefault(size_of(e, memo), []).append(e)
-    leaf_by_size = {}
-    for lid in NO_ORPHAN:
-        leaf_by_size.setdefault(size_of(["leaf", lid], memo), []).append(lid)
-    pairs = []
+        by_size.setdefault(size(e), []).append(e)
+    for lid in leaf_ids:
+        leaf_by_size.setdefault(size(["leaf", lid]), []).append(lid)
+    same = []
     for e in trees:
-        pairs.append((e, e, True))  # against itself (same object)
-        pairs.append((e, e, False))  # rebuilt: new composites over the same leaves
-        seen = set()
-        for lid in leaves_in(e):
-            if lid in seen:
-                continue
-            seen.add(lid)
-            for other in leaf_by_size.get(size_of(["leaf", lid], memo), []):
+        same.append((e, e, True))  # against itself (same object)
+        same.append((e, e, False))  # rebuilt: new composites over the same leaf objects
+        if e[0] == "attr":  # only the attribute map differs
+            for m in MAPPINGS:
+                if m != e[2]:
+                    same.append((e, ["attr", e[1], m], False))
+        for lid in sorted(set(leaves_in(e))):
+            for other in leaf_by_size.get(size(["leaf", lid]), []):
                 if other != lid:
-                    pairs.append((e, replace_leaf(e, lid, other), False))
-                    pairs.append((replace_leaf(e, lid, other), e, False))
+                    same.append((e, replace_leaf(e, lid, other), False))
+                    same.append((replace_leaf(e, lid, other), e, False))
+    anyl = []
+    sizes = sorted(k for k, v in by_size.items() if len(v) > 1)
     for _ in range(n_random):
-        sz = r.choice(sorted(by_size))
-        pairs.append((r.choice(by_size[sz]), r.choice(by_size[sz]), False))
-    return pairs
+        sz = r.choice(sizes)
+        anyl.append((r.choice(by_size[sz]), r.choice(by_size[sz]), False))
+    return same, anyl
 
 
 # --------------------------------------------------------------------------------------- protocol
-def protocol_cases(base_exprs, memo):
+def protocol_cases(base_exprs, size):
     """(base expr, op) with op parameters over the whole precondition of the assumed contracts in
     contracts/proto_widget.py (including results of zero rows / zero columns: `degenerate`)."""
     for e in base_exprs:
-        c, r = size_of(e, memo)
+        c, r = size(e)
         yield e, ["wrap"]
         for top in range(r):
-            for count in [None, *range(0, r + 2)]:
+            for count in [None, *range(r + 2)]:
                 yield e, ["trim", top, count]
         for n in range(1, r + 1):
             yield e, ["trim_end", n]
@@ -696,11 +735,11 @@ def shift(cur, dx, dy):
     return None if cur is None else (cur[0] + dx, cur[1] + dy)
 
 
-def run_protocol_unary(e, op, specs=None):
+def run_protocol_unary(e, op, mode, specs=None):
     """Facts: size change by the documented amounts, cursor and pop-up translated by (left, top).
     -> (ok, why, degenerate, info)"""
-    ctx = Ctx(specs)
-    base, _m, _ = ev(e, ctx, {})
+    ctx = Ctx(mode, specs)
+    base, _m, _ = ev(e, ctx)
     c, r, cur, pop = base.cols(), base.rows(), base.get_cursor(), base.get_pop_up()
     cc = UC.CompositeCanvas(base)
     info = {"base_size": [c, r], "base_cursor": cur}
@@ -747,11 +786,11 @@ def run_protocol_unary(e, op, specs=None):
     return True, "", degenerate, info
 
 
-def run_protocol_nary(expr, specs=None):
+def run_protocol_nary(expr, mode, specs=None):
     """CanvasCombine / CanvasJoin / CanvasOverlay: size and cursor facts, computed from the operands'
     reported sizes and cursors only (no grid)."""
-    ctx = Ctx(specs)
-    kids = [ev(k, ctx, {})[0] for k in kids_of(expr)]
+    ctx = Ctx(mode, specs)
+    kids = [ev(k, ctx)[0] for k in kids_of(expr)]
     sizes = [(k.cols(), k.rows()) for k in kids]
     curs = [k.get_cursor() for k in kids]
     try:
@@ -785,13 +824,13 @@ def run_protocol_nary(expr, specs=None):
     return True, "", info
 
 
-def run_finalized(lid, specs=None):
+def run_finalized(lid, mode, specs=None):
     """A finalized composite refuses every mutator with CanvasError and stays as it was."""
-    ctx = Ctx(specs)
-    base, _m, _ = ev(["leaf", lid], ctx, {})
+    ctx = Ctx(mode, specs)
+    base, _m, _ = ev(["leaf", lid], ctx)
     cc = UC.CompositeCanvas(base)
     cc.finalize(POPW, (cc.cols(),), False)
-    snap = snapshot(cc)
+    snap = snapshot(cc, mode)
     other = UC.CompositeCanvas(UC.SolidCanvas("o", 1, 1))
     muts = {
         "trim": lambda: cc.trim(0, 1),
@@ -815,33 +854,82 @@ def run_finalized(lid, specs=None):
             return False, f"{name} on a finalized canvas raised {ex!r} instead of CanvasError"
         else:
             return False, f"{name} on a finalized canvas did not raise"
-        if snapshot(cc) != snap:
+        if snapshot(cc, mode) != snap:
             return False, f"{name} changed the finalized canvas before raising"
     return True, ""
 
 
 # --------------------------------------------------------------------------------------------- run
-def _spec_subset(ids):
-    return {k: LEAVES[k] for k in ids}
+def _digest(s):
+    return hashlib.blake2b(s.encode("utf-8"), digest_size=8).digest()
 
 
-def _tree_worker(exprs):
-    with utf8_mode():
-        return [run_tree(e) for e in exprs]
+def _compact(e, mode, res):
+    """What travels back from a worker for one tree: small unless it failed."""
+    f = res["fail"]
+    if f:
+        f = {"mode": mode, "expr": e, "leaves": spec_subset(mode, leaves_in(e)), **f}
+    return (f, res["cuts"], res["has_coords"], res["size"])
 
 
-def _delta_worker(pairs):
-    with utf8_mode():
-        return [run_delta(o, n, None, same) for o, n, same in pairs]
+def _tree_worker(args):
+    mode, exprs = args
+    with enc_mode(mode):
+        return [_compact(e, mode, run_tree(e, mode)) for e in exprs]
 
 
-def _pmap(fn, items, procs):
-    if procs <= 1 or len(items) < 2000:
-        return fn(items)
+def _rand_worker(args):
+    mode, sub_seed, n, maxdepth, leaf_ids = args
+    r = rng(sub_seed)
+    size = Sizes(mode)
+    out = []
+    with enc_mode(mode):
+        tries = 0
+        while len(out) < n and tries < 3 * n:
+            tries += 1
+            e = rand_tree(r, maxdepth, leaf_ids, size)
+            if e[0] == "leaf":
+                continue
+            c, rr = size(e)
+            if c * rr > 400:
+                continue
+            if len(size.memo) > 200000:
+                size.memo.clear()
+            f, cuts, _hc, sz = _compact(e, mode, run_tree(e, mode))
+            out.append((_digest(mode + key_of(e)), f, cuts, depth_of(e), e if len(out) < 2 else None, sz))
+    return out
+
+
+def _delta_worker(args):
+    mode, pairs = args
+    with enc_mode(mode):
+        return [run_delta(o, n, mode, same) for o, n, same in pairs]
+
+
+def _proto_worker(args):
+    mode, jobs = args
+    out = []
+    with enc_mode(mode):
+        for kind, e, op in jobs:
+            try:
+                if kind == "u":
+                    out.append(run_protocol_unary(e, op, mode))
+                else:
+                    ok, why, info = run_protocol_nary(e, mode)
+                    out.append((ok, why, False, info))
+            except Fail as f:
+                out.append((False, "building the operand(s) failed: " + f.why, False, {}))
+    return out
+
+
+def _pmap(fn, mode, items, procs):
+    """Map a list-worker over items, keeping order."""
+    if procs <= 1 or len(items) < 3000:
+        return fn((mode, items))
     import multiprocessing as mp
 
-    n = procs * 8
-    chunks = [items[i::n] for i in range(n)]
+    n = procs * 4
+    chunks = [(mode, items[i::n]) for i in range(n)]
     with mp.get_context("fork").Pool(procs) as pool:
         res = pool.map(fn, chunks)
     out = [None] * len(items)
@@ -850,173 +938,195 @@ def _pmap(fn, items, procs):
     return out
 
 
-def key_of(e):
-    return json.dumps(e, ensure_ascii=False, separators=(",", ":"))
+def enumerate_trees(mode, tier, size):
+    """-> (leaf ids, d0, d1, d2, description). Clean, exhaustively enumerated scopes."""
+    quick = tier == "quick"
+    leaf_ids = QUICK_LEAVES[mode] if quick else list(LEAVES[mode])
+    core = CORE[tier][mode]
+    pad2 = 1 if quick else 2
+    d0 = [["leaf", k] for k in leaf_ids]
+    d1 = depth1(leaf_ids, size)
+    d1core = depth1(core, size)
+    d2 = []
+    for e in d1core:  # every unary operation over every depth-1 tree of the core leaves
+        c, rr = size(e)
+        d2.extend(mk_unary(op, e) for op in unary_ops(c, rr, pad=pad2, with_attr=True, with_wrap=False))
+    bin_leaves = core[:3] if quick else core
+    for e in d1core:  # every binary operation between a depth-1 tree of the core leaves and a leaf, both orders
+        for lid in bin_leaves:
+            d2.extend(binary_ops(e, ["leaf", lid], size, join_deltas=(-1, 1)))
+            d2.extend(binary_ops(["leaf", lid], e, size, join_deltas=(-1, 1)))
+    desc = (
+        f"[{mode}] leaves {leaf_ids} (<= 4x3); ALL trees of depth <= 1 (every trim/trim_end, pad_trim with pads <= 2 and every trim amount, "
+        f"5 attribute maps, combine of 2 and 3, join of 2 and 3 with widths cols-1..cols+1, overlay at every offset); depth 2: every unary op (pads <= {pad2}) over every "
+        f"depth-1 tree of core leaves {core}, and every combine/join(widths cols-1, cols+1)/overlay(every offset) of such a tree with a leaf of {bin_leaves} in both orders"
+    )
+    return leaf_ids, d0, d1, d2, desc
+
+
+TREE_ASPECTS = ("content", "size", "coords", "unchanged", "shards")
 
 
 def run(tier="quick", seed=0):
     t0 = time.time()
     quick = tier == "quick"
     procs = 8 if quick else 16
-    r = rng(seed)
-    memo = {}
-    with utf8_mode():
+    base_rng = rng(seed)
+    with enc_mode("utf8"):
         _check_alphabet()
-        leaf_ids = QUICK_LEAVES if quick else ALL_LEAVES
-        maxdepth = 2 if quick else 3
-        # ---- trees
-        d0 = [["leaf", k] for k in leaf_ids]
-        d1 = depth1(leaf_ids, memo)
-        # depth 2, exhaustive part: every unary operation (full parameter range) over every depth-1 tree
-        # of the core leaves, and every binary operation over (depth-1 sample, leaf) in both orders
-        core = ["wa", "zw", "orph", "dec"] if quick else ["wa", "zw", "orph", "dec", "big", "rag", "w", "sx"]
-        d1core = depth1(core, memo)
-        d2 = []
-        stride = 3 if quick else 1
-        for i, e in enumerate(d1core):
-            c, rr = size_of(e, memo)
-            ops = list(unary_ops(c, rr, pad=1, with_attr=True, with_wrap=False))
-            d2.extend(mk_unary(op, e) for op in ops[i % stride :: stride])
-        pick = d1core[:: (9 if quick else 2)]
-        for e in pick:
-            for lid in core[: (3 if quick else 6)]:
-                d2.extend(binary_ops(e, ["leaf", lid], memo, join_deltas=(-1, 1)))
-                d2.extend(binary_ops(["leaf", lid], e, memo, join_deltas=(-1, 1)))
-        exhaustive = d0 + d1 + d2
-        n_rand = 6000 if quick else 400000
-        rnd, seen = [], {key_of(e) for e in exhaustive}
-        tries = 0
-        while len(rnd) < n_rand and tries < n_rand * 3:
-            tries += 1
-            e = rand_tree(r, maxdepth, leaf_ids, memo)
-            k = key_of(e)
-            if k in seen or e[0] == "leaf":
-                continue
-            c, rr = size_of(e, memo)
-            if c * rr > 400:
-                continue
-            seen.add(k)
-            rnd.append(e)
+    modes = ["utf8", "euc"]
+    maxdepth = 2 if quick else 3
+    n_rand = {"utf8": 16000 if quick else 600000, "euc": 4000 if quick else 150000}
 
-    bound_ex = f"leaves {leaf_ids} (<= 4x3, UTF-8: wide, zero-width, orphan zero-width, DEC charset runs, 2-run attrs, solid, blank); all trees of depth <= 1 (pads <= 2, every trim, every overlay offset, join widths cols-1..cols+1, 5 attribute maps); depth 2: unary-over-depth-1 (1/{stride} of parameters) and binary (depth-1, leaf) over core leaves {core}"
-    bound_rnd = f"{len(rnd)} seeded random trees of depth <= {maxdepth} over the same leaves and operations (combine of 2-3, join of 2-3 with widths cols-2..cols+2)"
+    scope = {}
+    descs = []
+    for mode in modes:
+        size = Sizes(mode)
+        leaf_ids, d0, d1, d2, desc = enumerate_trees(mode, tier, size)
+        scope[mode] = (size, leaf_ids, d0, d1, d2)
+        descs.append(desc)
+    bound_enum = "; ".join(descs)
+
     checks = {
-        "content": Check(f"{ID}/content-cells", "content() of every node of every tree, decoded to (character, attr, cs) per row, equals the grid model's rows; each row is cols() wide", False, bound_ex + "; plus " + bound_rnd),
-        "size": Check(f"{ID}/size", "cols()/rows() of every node equal the grid's width/height", False, bound_ex + "; plus " + bound_rnd),
-        "coords": Check(f"{ID}/coords", "cursor and pop-up coordinates (coords, get_cursor, get_pop_up, translate_coords) equal the grid's translated coordinates at every node; combine/join: one of the operands' translated coordinates; distinct = trees carrying a coordinate at the root", False, bound_ex + "; plus " + bound_rnd),
-        "unchanged": Check(f"{ID}/operands-unchanged", "after every operation its operands, and at the end all leaves and intermediate canvases, report the same size, content and coords as when created (leaves are shared objects within a tree)", False, bound_ex + "; plus " + bound_rnd),
-        "widecut": Check(f"{ID}/wide-cut-space", "trees in which the grid model cuts at least one double-width character: the canvas emits only whole characters, a space (attribute of the cut character, default charset) where the grid has one, and every row is exactly cols() wide; distinct = trees with >= 1 cut", False, bound_ex + "; plus " + bound_rnd),
-        "shards": Check(f"{ID}/shards-wellformed", "after every operation the composite's cviews tile rows x cols exactly once, reach the end of their shard and stay inside their source canvas", False, bound_ex + "; plus " + bound_rnd),
+        "content": Check(f"{ID}/content-cells", "content() of every node of every tree, decoded to (character, attr, cs) per row, equals the grid model's rows, and every row is cols() columns wide", True, bound_enum),
+        "size": Check(f"{ID}/size", "cols()/rows() of every node equal the grid's width/height", True, bound_enum),
+        "coords": Check(f"{ID}/coords", "cursor and pop-up coordinates (coords, get_cursor, get_pop_up, translate_coords) equal the grid's translated coordinates at every node; combine/join: one of the operands' translated coordinates; distinct = trees carrying a coordinate at the root", True, bound_enum),
+        "unchanged": Check(f"{ID}/operands-unchanged", "after every operation its operands, and at the end all leaves and intermediate canvases, report the same size, content and coords as when created (a leaf is one shared object within a tree)", True, bound_enum),
+        "widecut": Check(f"{ID}/wide-cut-space", "trees in which the grid cuts at least one double-width character (trim or overlay edge through it): the canvas emits only whole characters, a space with the cut character's attribute and the default charset in the remaining cell, and rows exactly cols() wide; distinct = trees with >= 1 cut", True, bound_enum),
+        "shards": Check(f"{ID}/shards-wellformed", "after every operation the composite's cviews tile rows x cols exactly once, reach the end of their shard and stay inside their source canvas", True, bound_enum),
     }
-    all_trees = exhaustive + rnd
-    results = _pmap(_tree_worker, all_trees, procs)
-    for e, res in zip(all_trees, results):
-        k = key_of(e)
-        f = res["fail"]
-        sample = {"expr": e, "size": res["size"], "cuts": res["cuts"]}
-        detail = None
-        if f:
-            detail = {"expr": e, "leaves": _spec_subset(res["leaves"]), "encoding": "utf-8", **f, "at": f["at"]}
-        for name in ("content", "size", "coords", "unchanged", "shards"):
-            bad = bool(f) and f["check"] == name
-            nontriv = True
-            if name == "coords":
-                nontriv = res["has_coords"] or bad
-            if name == "shards":
-                nontriv = e[0] != "leaf"
-            if name == "unchanged":
-                nontriv = e[0] != "leaf"
-            checks[name].case(k, not bad, detail if bad else None, nontrivial=nontriv, sample=sample)
-        cut_rel = res["cuts"] > 0 or bool(f and f.get("half_character"))
-        if cut_rel or (f and f["check"] == "content"):
-            bad = bool(f) and f["check"] == "content" and (res["cuts"] > 0 or f.get("half_character") or "' '" in f["why"])
-            if cut_rel or bad:
-                checks["widecut"].case(k, not bad, detail if bad else None, nontrivial=True, sample=sample)
+    rchk = Check(f"{ID}/random-deep-trees", "seeded random trees: all of the above aspects (content, size, coords, operands unchanged, shards) at every node", False, f"{n_rand} random trees of depth <= {maxdepth} (combine of 2-3, join of 2-3 with widths cols-2..cols+2, pads <= 2), result area <= 400 cells, same leaves")
 
-    with utf8_mode():
-        # ---- content_delta
-        delta_ids = [k for k in leaf_ids if k != "orph"]
-        dmemo = {}
-        base = [e for e in (d0 + d1 + d2[:: (7 if quick else 3)]) if "orph" not in leaves_in(e)]
-        base = base[:: (2 if quick else 1)]
-        pairs = delta_pairs(base, memo, r, 2000 if quick else 60000)
-        del dmemo, delta_ids
-    dchk = Check(f"{ID}/content-delta", "new.content_delta(old) applied to old's rows (int n = keep n columns as drawn, runs = draw) reproduces new's content; old/new have equal size and are built over the same leaf objects: same object, rebuilt tree, one leaf replaced by another of the same size (both directions), random same-size pairs; nontrivial = delta that both skips and draws", False, f"{len(pairs)} pairs from trees of depth <= 2 over leaves without orphan zero-width characters")
-    dres = _pmap(_delta_worker, pairs, procs)
-    for (o, n, same), res in zip(pairs, dres):
-        k = (key_of(o), key_of(n), same)
-        f = res["fail"]
-        detail = None
-        if f:
-            detail = {"old": o, "new": n, "same_object": same, "leaves": _spec_subset(sorted(set(leaves_in(o) + leaves_in(n)))), "encoding": "utf-8", **f}
-        dchk.case(k, not f, detail, nontrivial=bool(f) or (res["skipped"] > 0 and res["drawn"] > 0), sample={"old": o, "new": n, "skipped_cols": res["skipped"], "drawn_cols": res["drawn"]})
+    n_enum = 0
+    for mode in modes:
+        size, leaf_ids, d0, d1, d2 = scope[mode]
+        trees = d0 + d1 + d2
+        n_enum += len(trees)
+        results = _pmap(_tree_worker, mode, trees, procs)
+        for e, (f, cuts, has_coords, sz) in zip(trees, results):
+            k = (mode, key_of(e))
+            sample = {"mode": mode, "expr": e, "size": sz, "cuts": cuts}
+            for name in TREE_ASPECTS:
+                bad = bool(f) and f["check"] == name
+                nontriv = True
+                if name == "coords":
+                    nontriv = has_coords or bad
+                elif name in ("shards", "unchanged"):
+                    nontriv = e[0] != "leaf"
+                checks[name].case(k, not bad, f if bad else None, nontrivial=nontriv, sample=sample)
+            # wide-cut view of the content clause
+            bad = bool(f) and f["check"] == "content" and (f.get("half_character") or "' '" in f["why"])
+            if cuts > 0 or bad:
+                checks["widecut"].case(k, not bad, f if bad else None, nontrivial=True, sample=sample)
+        # random trees, generated inside the workers
+        nchunks = procs * 2
+        per = (n_rand[mode] + nchunks - 1) // nchunks
+        jobs = [(mode, base_rng.getrandbits(30), per, maxdepth, leaf_ids) for _ in range(nchunks)]
+        if procs > 1:
+            import multiprocessing as mp
+
+            with mp.get_context("fork").Pool(procs) as pool:
+                rres = pool.map(_rand_worker, jobs)
+        else:
+            rres = [_rand_worker(j) for j in jobs]
+        for chunk in rres:
+            for dig, f, cuts, depth, e, sz in chunk:
+                rchk.case(dig, not f, f, nontrivial=True, sample={"mode": mode, "expr": e, "size": sz, "cuts": cuts, "depth": depth} if e else None)
+
+    out = [c.result() for c in checks.values()] + [rchk.result()]
+
+    # ---- content_delta
+    dsame = Check(f"{ID}/content-delta-same-layout", "new.content_delta(old) applied to old's rows (int n = the next n columns stay as drawn, runs = draw) reproduces new's content; old and new have the same tree shape over the same leaf objects: the same object, the tree rebuilt, one leaf replaced by another of the same size (both directions), another attribute map; nontrivial = delta that both skips and draws", True, "")
+    dany = Check(f"{ID}/content-delta-any-layout", "the same, old and new being two arbitrary trees of equal size over the same leaf objects (shard boundaries need not line up); nontrivial = delta that both skips and draws", False, "")
+    n_pairs = 0
+    for mode in modes:
+        size, leaf_ids, d0, d1, d2 = scope[mode]
+        dl = [k for k in leaf_ids if k != "orph"]  # see apply_delta: orphan zero-width characters have no column of their own
+        base = [e for e in d0 + d1 + d2[:: (9 if quick else 2)] if "orph" not in leaves_in(e)]
+        if quick:
+            base = base[::2]
+        same, anyl = delta_pairs(base, size, dl, base_rng, (3000 if quick else 150000) // (1 if mode == "utf8" else 4))
+        n_pairs += len(same) + len(anyl)
+        for chk, pairs in ((dsame, same), (dany, anyl)):
+            chk.bound += f"[{mode}] {len(pairs)} pairs from {len(base)} trees of depth <= 2 (leaves without orphan zero-width characters); "
+            res = _pmap(_delta_worker, mode, pairs, procs)
+            for (o, n, sameobj), rs in zip(pairs, res):
+                f = rs["fail"]
+                detail = None
+                if f:
+                    detail = {"mode": mode, "old": o, "new": n, "same_object": sameobj, "leaves": spec_subset(mode, leaves_in(o) + leaves_in(n)), **f}
+                chk.case((mode, key_of(o), key_of(n), sameobj), not f, detail, nontrivial=bool(f) or (rs["skipped"] > 0 and rs["drawn"] > 0), sample={"mode": mode, "old": o, "new": n, "skipped_cols": rs["skipped"], "drawn_cols": rs["drawn"]})
+
+    out += [dsame.result(), dany.result()]
 
     # ---- canvas protocol (owned facts)
-    pchk = Check(f"{ID}/canvas-protocol", "size/cursor effects assumed by contracts/proto_widget.py: CompositeCanvas(c) keeps cols/rows/cursor; trim(top,count): rows = rows-top or min(count, rows-top), cursor y-top; trim_end(n): rows-n; pad_trim_left_right(l,r): cols+l+r, cursor x+l; pad_trim_top_bottom(t,b): rows+t+b, cursor y+t; fill_attr_apply: nothing; other dimension unchanged; pop-up moves like the cursor; CanvasOverlay: bottom's size, top's cursor+(left,top) else bottom's; CanvasCombine: (cols, sum rows), a child's cursor + (0, rows above); CanvasJoin: (sum of requested cols, max rows), a child's cursor + (cols to the left, 0). Results with >= 1 row and >= 1 column", True, "every leaf and every depth-1 tree as the operand; every parameter inside the contracts' preconditions with pads <= 2; n-ary: every depth-1 combine/join/overlay over the leaves plus depth-2 ones from the tree scope")
-    gchk = Check(f"{ID}/canvas-protocol-degenerate", "the same facts for calls the assumed contracts admit whose result has zero rows or zero columns (trim(top, 0), trim_end(rows), pad_trim_* trimming everything)", True, "same operands; parameters at the edge of the contracts' preconditions")
-    fchk = Check(f"{ID}/finalized-guard", "a finalized CompositeCanvas refuses trim, trim_end, pad_trim_*, overlay, fill_attr(_apply), set_cursor, set_pop_up, set_depends, finalize with CanvasError and is unchanged", True, "one composite per leaf")
-    with utf8_mode():
+    pchk = Check(
+        f"{ID}/canvas-protocol",
+        "size/cursor effects assumed by contracts/proto_widget.py, for results with >= 1 row and >= 1 column: CompositeCanvas(c) keeps cols/rows/cursor/pop-up; trim(top,count): rows = rows-top or min(count, rows-top), "
+        "cursor y-top; trim_end(n): rows-n, cursor kept; pad_trim_left_right(l,r): cols+l+r, cursor x+l; pad_trim_top_bottom(t,b): rows+t+b, cursor y+t; fill_attr_apply: nothing; the other dimension is unchanged and the pop-up "
+        "moves like the cursor; CanvasOverlay: bottom's size, top's cursor+(left,top) else bottom's; CanvasCombine: (cols, sum of rows), a child's cursor+(0, rows above); CanvasJoin: (sum of requested cols, max rows), a child's cursor+(cols to the left, 0)",
+        True,
+        "operands: every leaf and depth-1 tree (quick: every 5th); unary parameters: everything inside the contracts' preconditions with pads <= 2 and count <= rows+1; n-ary: the depth <= 2 combine/join/overlay trees of the enumerated scope (quick: every 2nd)",
+    )
+    gchk = Check(
+        f"{ID}/canvas-protocol-degenerate",
+        "the same facts for the calls the assumed contracts also admit whose (intermediate) result has zero rows or zero columns: trim(top, 0), trim_end(rows), pad_trim_top_bottom trimming every row (then possibly padding), pad_trim_left_right trimming every column",
+        True,
+        "same operands; parameters at the edge of the contracts' preconditions",
+    )
+    fchk = Check(f"{ID}/finalized-guard", "a finalized CompositeCanvas refuses trim, trim_end, pad_trim_*, overlay, fill_attr(_apply), set_cursor, set_pop_up, set_depends and finalize with CanvasError and is unchanged afterwards", True, "one composite per leaf and mode")
+    for chk in (pchk, gchk, fchk):
+        chk.t0 = time.time()
+    for mode in modes:
+        size, leaf_ids, d0, d1, d2 = scope[mode]
         pbase = d0 + (d1[::5] if quick else d1)
-        for e, op in protocol_cases(pbase, memo):
-            try:
-                ok, why, degen, info = run_protocol_unary(e, op)
-            except Fail as f:
-                ok, why, degen, info = False, "building the operand failed: " + f.why, False, {}
-            tgt = gchk if degen else pchk
-            tgt.case((key_of(e), key_of(op)), ok, {"base": e, "op": op, "leaves": _spec_subset(sorted(set(leaves_in(e)))), "why": why, **info}, sample={"base": e, "op": op})
         nary = [e for e in (d1 + d2) if e[0] in ("combine", "join", "overlay")]
         if quick:
             nary = nary[::2]
-        for e in nary:
-            try:
-                ok, why, info = run_protocol_nary(e)
-            except Fail as f:
-                ok, why, info = False, "building the operands failed: " + f.why, {}
-            pchk.case(key_of(e), ok, {"expr": e, "leaves": _spec_subset(sorted(set(leaves_in(e)))), "why": why, **info}, sample={"expr": e})
-        for lid in leaf_ids:
-            ok, why = run_finalized(lid)
-            fchk.case(lid, ok, {"leaf": lid, "leaves": _spec_subset([lid]), "why": why}, sample={"leaf": lid})
+        jobs = [("u", e, op) for e, op in protocol_cases(pbase, size)] + [("n", e, None) for e in nary]
+        for (kind, e, op), (ok, why, degen, info) in zip(jobs, _pmap(_proto_worker, mode, jobs, procs)):
+            if kind == "u":
+                tgt = gchk if degen else pchk
+                tgt.case((mode, key_of(e), key_of(op)), ok, {"mode": mode, "base": e, "op": op, "leaves": spec_subset(mode, leaves_in(e)), "why": why, **info}, sample={"mode": mode, "base": e, "op": op})
+            else:
+                pchk.case((mode, key_of(e)), ok, {"mode": mode, "expr": e, "leaves": spec_subset(mode, leaves_in(e)), "why": why, **info}, sample={"mode": mode, "expr": e})
+        with enc_mode(mode):
+            for lid in leaf_ids:
+                ok, why = run_finalized(lid, mode)
+                fchk.case((mode, lid), ok, {"mode": mode, "leaf": lid, "leaves": spec_subset(mode, [lid]), "why": why}, sample={"mode": mode, "leaf": lid})
 
-    out = [c.result() for c in checks.values()] + [dchk.result(), pchk.result(), gchk.result(), fchk.result()]
+    out += [pchk.result(), gchk.result(), fchk.result()]
     wall = round(time.time() - t0, 1)
     return {
         "checks": out,
-        "bound": f"UTF-8; {len(leaf_ids)} leaf canvases <= 4x3; {len(exhaustive)} enumerated trees of depth <= 2 + {len(rnd)} seeded random trees of depth <= {maxdepth}; {len(pairs)} delta pairs; wall {wall}s",
+        "bound": f"UTF-8 and euc-jp (double-byte) modes; leaf canvases <= 4x3 (text with wide, zero-width, orphan zero-width, DEC-charset runs, 2-run attributes; solid; blank); {n_enum} enumerated trees of depth <= 2 + {rchk.evaluations} seeded random trees of depth <= {maxdepth}; {n_pairs} content_delta pairs; wall {wall}s",
     }
 
 
 # ------------------------------------------------------------------------------------------ replay
-def _norm(x):
-    """JSON round trip turns tuples into lists and None keys are never used; nothing to do for leaf specs
-    beyond accepting lists."""
-    return x
-
-
 def replay(check_name, case):
-    specs = dict(LEAVES)
+    mode = case.get("mode", "utf8")
+    specs = dict(LEAVES[mode])
     specs.update(case.get("leaves") or {})
     name = check_name.split("/", 1)[-1]
-    with utf8_mode():
-        if name == "content-delta":
-            res = run_delta(case["old"], case["new"], specs, case.get("same_object", False))
+    with enc_mode(mode):
+        if name.startswith("content-delta"):
+            res = run_delta(case["old"], case["new"], mode, case.get("same_object", False), specs)
             f = res["fail"]
             return {"outcome": "confirmed" if f else "not-reproduced", "detail": f or res}
         if name in ("canvas-protocol", "canvas-protocol-degenerate"):
-            if "op" in case:
-                try:
-                    ok, why, _degen, info = run_protocol_unary(case["base"], case["op"], specs)
-                except Fail as f:
-                    ok, why, info = False, f.why, {}
-            else:
-                try:
-                    ok, why, info = run_protocol_nary(case["expr"], specs)
-                except Fail as f:
-                    ok, why, info = False, f.why, {}
+            try:
+                if "op" in case:
+                    ok, why, _degen, info = run_protocol_unary(case["base"], case["op"], mode, specs)
+                else:
+                    ok, why, info = run_protocol_nary(case["expr"], mode, specs)
+            except Fail as f:
+                ok, why, info = False, f.why, {}
             return {"outcome": "not-reproduced" if ok else "confirmed", "detail": {"why": why, **info}}
         if name == "finalized-guard":
-            ok, why = run_finalized(case["leaf"], specs)
+            ok, why = run_finalized(case["leaf"], mode, specs)
             return {"outcome": "not-reproduced" if ok else "confirmed", "detail": {"why": why}}
-        res = run_tree(case["expr"], specs)
+        res = run_tree(case["expr"], mode, specs)
         f = res["fail"]
         want = {"content-cells": "content", "wide-cut-space": "content", "size": "size", "coords": "coords", "operands-unchanged": "unchanged", "shards-wellformed": "shards"}.get(name)
         confirmed = bool(f) and (want is None or f["check"] == want)
